@@ -905,6 +905,11 @@ static void
 orc_parse_advance (OrcParser *parser)
 {
   parser->p += parser->line_length;
+  /* a line ends with \n or \r\n: consume both so that a CRLF file does not
+   * count every line twice */
+  if (parser->p[0] == '\r' && parser->p[1] == '\n') {
+    parser->p++;
+  }
   if (parser->p[0] == '\n' || parser->p[0] == '\r') {
     parser->p++;
   }
